@@ -423,6 +423,31 @@ func genC13(c *Ctx) {
 			c.count("counter_huge")
 		}
 	}
+	// cumulative totals beyond 2^62 (an int still holds every individual length, the share count and the
+	// remainder): model comparison only, the harness's own int arithmetic would overflow
+	for _, hist := range [][]int{{100, 1 << 62, 1 << 62, 5000}, {1 << 61, 1 << 61, 1 << 61, 1<<61 - 4096, 77}, {1<<62 + 12345, 1<<61 + 1, 999}} {
+		ops := ""
+		cnt := share.NewCompactShareCounter()
+		ok := true
+		for j, l := range hist {
+			if j > 0 {
+				ops += ","
+			}
+			ops += "a" + s(l)
+			before := cnt.Size()
+			d := cnt.Add(l)
+			ok = ok && d >= 0 && cnt.Size()-before == d && cnt.Remainder() >= 0 && cnt.Remainder() < 478
+			if j%2 == 1 {
+				ops += ",a777,r"
+				cnt.Add(777)
+				cnt.Revert()
+			}
+		}
+		c.check(ok, "CompactShareCounter", "negative or inconsistent size/remainder/increment after a very large cumulative total", map[string]any{"ops": ops})
+		c.add("counter", ops)
+		c.mark("counter-cumulative:" + ops)
+		c.count("counter_cumulative_2^62")
+	}
 	// prediction vs encoding for blobs (both share versions)
 	nss := blobNamespaces(r, 3)
 	var blens []int
